@@ -4,7 +4,12 @@ package doubles
 
 import (
 	"errors"
+	"fmt"
+	"io"
+	"net"
+	"os"
 	"strconv"
+	"strings"
 	"sync"
 	"time"
 
@@ -39,6 +44,9 @@ type Result struct {
 	Nil bool        // return a nil message
 	Val *resp.Value // message to return
 	Err string      // non-empty: return this error (together with Val if set)
+	// ErrKind (with Err set): the error value is a well-known one - eof | unexpected-eof | closed-pipe | net-closed |
+	// timeout (a net.Error) | wrapped-eof | wrapped-timeout - as a handler backed by a remote store would pass on
+	ErrKind string
 	// Odd: a message the public constructors allow but no decoder ever yields:
 	// "nil-array" = redis.NewArrayMessageWithArray(nil); "no-type" = proto.NewMessageWithType(0) with a payload;
 	// "unknown-type" = proto.NewMessageWithType(99); "nil-in-array" = an array message holding a nil element; "nil-in-big-array" = the same behind 8 KiB of elements
@@ -179,6 +187,24 @@ func (r *Recorder) record(conn *redis.Conn, method string, pattern *glob.Glob, a
 		}
 		arr.Append(nil)
 		msg = redis.NewArrayMessageWithArray(arr)
+	case "walked-array":
+		// an array the handler has read through before returning it (its read cursor is not at the start)
+		arr := proto.NewArray()
+		for _, x := range []string{"a", "b", "c"} {
+			arr.Append(redis.NewBulkMessage(x))
+		}
+		arr.Next()
+		arr.Next()
+		msg = redis.NewArrayMessageWithArray(arr)
+	case "nil-in-huge-array":
+		// more than 64 KiB of good elements, then one that cannot be serialized
+		arr := proto.NewArray()
+		big := strings.Repeat("0123456789abcdef", 64)
+		for i := 0; i < 100; i++ {
+			arr.Append(redis.NewBulkMessage(big))
+		}
+		arr.Append(nil)
+		msg = redis.NewArrayMessageWithArray(arr)
 	case "nil-in-array":
 		arr := proto.NewArray()
 		arr.Append(redis.NewBulkMessage("a"))
@@ -187,6 +213,22 @@ func (r *Recorder) record(conn *redis.Conn, method string, pattern *glob.Glob, a
 	}
 	if res.Err != "" {
 		err = errors.New(res.Err)
+		switch res.ErrKind {
+		case "eof":
+			err = io.EOF
+		case "unexpected-eof":
+			err = io.ErrUnexpectedEOF
+		case "closed-pipe":
+			err = io.ErrClosedPipe
+		case "net-closed":
+			err = net.ErrClosed
+		case "timeout":
+			err = os.ErrDeadlineExceeded
+		case "wrapped-eof":
+			err = fmt.Errorf("backend read: %w", io.EOF)
+		case "wrapped-timeout":
+			err = &net.OpError{Op: "read", Net: "tcp", Err: os.ErrDeadlineExceeded}
+		}
 	}
 	r.mu.Lock()
 	if msg != nil {
